@@ -70,7 +70,7 @@ if '--matrix' in sys.argv:
 
 def numbers():
     """cases and wall seconds per check and tier, from the copies of the evidence files that
-    scratch/run_all.sh keeps after each run (scratch/evidence_<ID>_<tier>.json)"""
+    tools/run_all.sh keeps after each run (scratch/evidence_<ID>_<tier>.json)"""
     for i in range(1, 19):
         p = 'C%02d' % i
         row = []
